@@ -197,7 +197,9 @@ class Path:
         """two persistent incremental solvers: ground (path condition only) and full (+ hypotheses)"""
         if getattr(self, "_full", None) is None:
             self._full = z3.Solver()
-            self._full.set("timeout", self.timeout_ms)
+            # the deterministic resource limit below is what normally ends a hopeless query; the wall-clock timeout is a
+            # generous safety net, so that verdicts do not depend on the load of the machine
+            self._full.set("timeout", self.timeout_ms * 5)
             # entailment-only use: proofs come from E-matching on the stated triggers; model-based quantifier
             # instantiation is switched off so that non-theorems give "unknown" quickly instead of searching a model
             self._full.set("smt.mbqi", False)
@@ -205,7 +207,8 @@ class Path:
             self._full.set("rlimit", 600_000)
             self._full.set("smt.arith.nl.rounds", 64)
             self._ground = z3.Solver()
-            self._ground.set("timeout", min(self.timeout_ms, 1000))
+            self._ground.set("timeout", min(self.timeout_ms, 1000) * 5)
+            self._ground.set("rlimit", 300_000)
             self._n_hyps = 0
             self._n_pc = 0
             self._n_str = 0
@@ -283,7 +286,7 @@ class Path:
         """entailment by the incremental solvers, else by the sliced / purified non-linear procedure"""
         return self.entails(cond) or self.entails_sliced(cond)
 
-    def entails_sliced(self, cond, timeout_ms=4000):
+    def entails_sliced(self, cond, timeout_ms=12000):
         import time
 
         facts = [f for f in list(self.hyps) + list(self.pc) + self._ctx() if not z3.is_quantifier(f)]
